@@ -21,7 +21,7 @@ EXPLANATION = (
     'accessor code, not over sampled calls.')
 
 
-TECHNIQUE = ('static analysis: flow-sensitive may-alias/escape dataflow over the CFG of each public accessor with its private helpers inlined; linear-form normalisation of slice bounds with temporaries resolved')
+TECHNIQUE = ('static analysis: flow-sensitive may-alias/escape dataflow over the CFG of each public accessor with its private helpers inlined; path-wise symbolic evaluation of the window the series accessor returns (linear forms over cutoff / default, stored[lo:hi] references, assumptions taken at None / flag tests)')
 
 
 def _has_return_value(f):
